@@ -107,6 +107,14 @@ def o_set(a):
     except RuntimeError:
         return True, dict(skipped='flavour not supported for this name')
     modf = irf.load_modf(name, du)
+    # the cache switch is not part of the choice of the file: with cache=False the same files come back (or the same refusal)
+    for loader, ref, t in (((irf.load_arf, aeff, 'arf'), (irf.load_mrf, mrf, 'mrf')) if a.get('nocache') else ()):
+        try:
+            fresh = loader(name, du, cache=False, simple_weighting=sflag, gray_filter=gflag)
+            if os.path.abspath(fresh.file_path) != os.path.abspath(ref.file_path):
+                bad.append('%s loader with cache=False returned %s, with the cache %s' % (t, os.path.basename(fresh.file_path), os.path.basename(ref.file_path)))
+        except (SystemExit, RuntimeError) as e:
+            bad.append('%s loader with cache=False refuses (%s) what it serves with the cache' % (t, type(e).__name__))
     for obj, t in ((aeff, 'arf'), (mrf, 'mrf')):
         fn = os.path.basename(obj.file_path)
         exp = irf.caldb.irf_file_path(name, du, t, check_file=False, simple_weighting=sflag, gray_filter=gflag)
@@ -221,7 +229,9 @@ def explore(chk, budget=1):
                 for gflag in (False, True):
                     if quick and not (du == 1 or g.uniform() < 0.34):
                         continue
-                    run_oracle(chk, 'set', dict(name=name, du=du, simple=sflag, gray=gflag, full=not (sflag or gflag)), nontrivial=sflag or gflag)
+                    # the uncached path re-reads the files: in the quick tier for the flagged configurations of one detector unit per name
+                    nocache = (not quick) or ((sflag or gflag) and du == 1 + names.index(name) % 3)
+                    run_oracle(chk, 'set', dict(name=name, du=du, simple=sflag, gray=gflag, full=not (sflag or gflag), nocache=nocache), nontrivial=sflag or gflag)
             for gflag in (False, True):
                 if quick and du != int(g.integers(1, 4)):
                     continue
